@@ -57,10 +57,16 @@ def source_text(sp: str, nm: str, ver: int) -> str:
     return f"{sp}/{nm}@{ver}|{{{{ g }}}}|{{{{ eg }}}}"
 
 
-def expected_text(o: dict, env_globals: bool = True) -> str:
+# the model's globals are distinct abstract values; the "alike" concretisation hands the loader Python values that
+# are equal to `==` (1 == True == 1.0) yet are different Liquid values - what one caller passed is not what another did
+ALIKE = {"g1": (1, "1"), "g2": (True, "true"), "g3": (1.0, "1.0")}
+
+
+def expected_text(o: dict, env_globals=True) -> str:
     # `eg` is an environment global: every render sees it, whatever the cache did
     sp, nm = o["key"]
-    return f"{sp}/{nm}@{o['ver']}|" + ("" if o["glob"] == "g0" else o["glob"]) + ("|E" if env_globals else "|")
+    g = "" if o["glob"] == "g0" else (ALIKE[o["glob"]][1] if env_globals == "alike" else o["glob"])
+    return f"{sp}/{nm}@{o['ver']}|" + g + ("|E" if env_globals else "|")
 
 
 def make_inner(store: Store, fresh: bool):
@@ -126,16 +132,26 @@ def build_loader(variant: str, store: Store, cfg: dict, root: Path | None):
         templates = {nm: source_text(sp, nm, v) for (sp, nm), v in store.ver.items()}
         store.templates = templates
         return CachingDictLoader(templates, auto_reload=ar, namespace_key="ns", capacity=cap)
-    if variant == "fs":
+    if variant in ("fs", "fsl"):
         assert root is not None
         for (sp, nm), v in store.ver.items():
-            write_file(root, sp, nm, v)
+            write_file(root, sp, nm, v, variant == "fsl")
+        if variant == "fsl":
+            # a search path of several directories: a modification is a new file in a directory searched earlier
+            return CachingFileSystemLoader([root / f"p{i}" for i in range(LAYERS, 0, -1)], auto_reload=ar, capacity=cap)
         return CachingFileSystemLoader(root, auto_reload=ar, capacity=cap)
     raise ValueError(variant)
 
 
-def write_file(root: Path, sp: str, nm: str, v: int) -> None:
+LAYERS = 9
+
+
+def write_file(root: Path, sp: str, nm: str, v: int, layered: bool = False) -> None:
     p = root / nm
+    if layered:
+        for i in range(1, LAYERS + 1):
+            (root / f"p{i}").mkdir(exist_ok=True)
+        p = root / f"p{min(v, LAYERS)}" / nm
     p.write_text(source_text(sp, nm, v))
     os.utime(p, (1_000_000 + v, 1_000_000 + v))
 
@@ -162,7 +178,7 @@ def replay(hist: list[dict], variant: str, cfg: dict, scratch: Path, env_globals
     keys = [(sp, nm) for sp in cfg["spaces"] for nm in cfg["names"]]
     store = Store(keys)
     root = None
-    if variant == "fs":
+    if variant in ("fs", "fsl"):
         root = scratch / f"fs-{os.getpid()}"
         shutil.rmtree(root, ignore_errors=True)
         root.mkdir(parents=True)
@@ -170,11 +186,13 @@ def replay(hist: list[dict], variant: str, cfg: dict, scratch: Path, env_globals
     env = Environment(loader=loader, globals={"eg": "E"} if env_globals else None)
     coros: dict[int, object] = {}
     held: list = []
-    atomic_async = variant in ("dict", "fs")
+    atomic_async = variant in ("dict", "fs", "fsl")
     done_async: dict[int, dict] = {}
 
     def globs(g):
-        return None if g == "g0" else {"g": g}
+        if g == "g0":
+            return None
+        return {"g": ALIKE[g][0]} if env_globals == "alike" else {"g": g}
 
     def step_coro(t):
         """Advance task t to its next await point; observation if it completed."""
@@ -229,8 +247,8 @@ def replay(hist: list[dict], variant: str, cfg: dict, scratch: Path, env_globals
             elif op["op"] == "modify":
                 k = (op["sp"], op["nm"])
                 store.ver[k] += 1
-                if variant == "fs":
-                    write_file(root, k[0], k[1], store.ver[k])
+                if variant in ("fs", "fsl"):
+                    write_file(root, k[0], k[1], store.ver[k], variant == "fsl")
                 elif variant == "dict":
                     store.templates[k[1]] = source_text(k[0], k[1], store.ver[k])
             elif op["op"] == "delete":
@@ -238,6 +256,9 @@ def replay(hist: list[dict], variant: str, cfg: dict, scratch: Path, env_globals
                 store.ver[k] = 0
                 if variant == "fs":
                     (root / k[1]).unlink()
+                elif variant == "fsl":
+                    for i in range(1, LAYERS + 1):
+                        (root / f"p{i}" / k[1]).unlink(missing_ok=True)
                 elif variant == "dict":
                     del store.templates[k[1]]
             elif op["op"] == "fault":
@@ -302,7 +323,7 @@ def _replay_chunk(args):
     out = []
     for h in hists:
         # with and without globals on the Environment itself (the in-memory variants: cheap)
-        for eg in ((True, False) if variant in ("mixin", "dict") else (True,)):
+        for eg in ((True, False, "alike") if variant in ("mixin", "dict") else (True,)):
             try:
                 f = replay(h, variant, cfg, Path(scratch), eg)
             except BaseException as e:  # noqa: BLE001
@@ -478,10 +499,14 @@ def check(tier: str) -> int:
     for ar, cap, n in real:
         run_config(chk, f"fs-ar{ar[0]}-cap{cap}",
                    constants(AutoReload=ar, Fresh="TRUE", Capacity=cap, MaxOps=n, **one),
-                   ["fs"], flt=real_loader_filter)
+                   ["fs", "fsl"], flt=real_loader_filter)
         run_config(chk, f"dict-ar{ar[0]}-cap{cap}",
                    constants(AutoReload=ar, Fresh="FALSE", Capacity=cap, MaxOps=n, **one),
                    ["dict"], flt=real_loader_filter)
+    # globals that are equal to `==` and different to a template (the "alike" concretisation needs two non-empty ones)
+    for fr, variants in (("TRUE", ["mixin"]), ("FALSE", ["dict"])):
+        run_config(chk, f"alike-fr{fr[0]}", constants(AutoReload="TRUE", Fresh=fr, Capacity=2, MaxOps=3, Names='{"a"}', Spaces='{"n1"}',
+                                                     Globs='{"g0","g1","g2"}'), variants, flt=real_loader_filter)
     # random long histories
     for ar, fr, cap in sims:
         run_config(chk, f"sim-ar{ar[0]}-fr{fr[0]}-cap{cap}",
